@@ -75,6 +75,9 @@ Definition tps_step (acc : option tps_t) (r : row) : option tps_t :=
       else Some t1
   end.
 
+(* a row as its five columns (col: a missing column reads as '') *)
+Definition norm_row (r : row) : row := [r_state r; r_event r; r_next r; r_action r; r_guard r].
+
 Definition tt_states (tt : list row) : list string :=
   fold_left (fun acc r => let a1 := if present (r_state r) then add_new (r_state r) acc else acc in
                           if present (r_next r) then add_new (r_next r) a1 else a1) tt [].
@@ -103,7 +106,7 @@ Definition tt_model (tt : list row) (structs protos msgs : list string) : option
               sm_events := fold_left (fun acc s => add_new s acc) structs (tt_collect r_event tt);
               sm_actions := tt_collect r_action tt; sm_guards := tt_collect r_guard tt;
               sm_actionsigs := tt_actionsigs tt; sm_tps := tps_close (tt_states tt) tps;
-              sm_first := match tt with [] => "NO TT PRESENT!" | r :: _ => r_state r end; sm_rows := tt;
+              sm_first := match tt with [] => "NO TT PRESENT!" | r :: _ => r_state r end; sm_rows := map norm_row tt;
               if_structs := structs; if_protos := protos; if_msgs := msgs |}
   end.
 
